@@ -1202,6 +1202,15 @@ class SQLModel:
         if using is None:
             using = OrderedSet(project_node.column_names)
         subops = {k: op for (k, op) in project_node.ops.items() if k in using}
+        if (
+            (len(subops) < 1)
+            and (len(project_node.group_by) < 1)
+            and (len(project_node.ops) > 0)
+        ):
+            # an ungrouped aggregation returns one row even if no result is used later, so keep one aggregate
+            k = next(iter(project_node.ops.keys()))
+            subops = {k: project_node.ops[k]}
+            using = OrderedSet(using).union([k])
         subusing = project_node.columns_used_from_sources(using=using)[0]
         terms = {ci: self.expr_to_sql(oi) for (ci, oi) in subops.items()}
         terms.update({g: None for g in project_node.group_by})
@@ -2043,6 +2052,9 @@ class SQLModel:
             if columns is None:
                 columns = [k for k in terms.keys()]
             terms_strs = [self.enc_term_(k, terms=terms) for k in columns]
+            if len(terms_strs) < 1:
+                # no column is requested from this step: still compute its own terms (keeps aggregations aggregating)
+                terms_strs = [self.enc_term_(k, terms=terms) for k in terms.keys()]
             if len(terms_strs) < 1:
                 terms_strs = ["*"]
         sql_start = "SELECT"
